@@ -1,3 +1,4 @@
+import CacheVerif.Proofs.DeepLoadM
 import CacheVerif.Proofs.ProtoLocks
 import CacheVerif.Proofs.ProtoData
 import CacheVerif.Proofs.ConcCacheLin
@@ -181,5 +182,18 @@ theorem C16_source_lookups_read_only (s : Model.CSt K V) (k : K) :
     · exact ⟨⟨_, DeepTrace.count_actions s, rfl⟩, ⟨_, DeepTraceOf.count_actions s, rfl⟩⟩
 
 end cache
+
+/-! ### the text of the lookups, printed from the source, cannot write or lock -/
+
+/-- **the bodies of `(*MapOf).Load`, `(*Map).Load` and `sumSize` contain no store and no allocation** - on any path, not
+only the executed ones - and, the printer (`go2deep -table`) having accepted them, nothing but local variables, plain
+and atomic *loads*, leaf functions of `internal/xsync`, conversions and control flow: no lock, no CAS, no condition
+variable, no call that could block.  (`rfl` on the syntax regenerated on every run.)  Together with
+`C10_source_load_is_word_search` / `C10_source_mapload_is_tophash_search` - the calls end within a number of iterations
+bounded by the chain length - this is the source-level half of "a lookup never waits". -/
+theorem C16_source_lookups_cannot_write :
+    Gen.Deep.T_MapOf_Load.body.readOnly = true ∧ Gen.Deep.T_Map_Load.body.readOnly = true ∧
+    Gen.Deep.T_mapOfTable_sumSize.body.readOnly = true ∧ Gen.Deep.T_mapTable_sumSize.body.readOnly = true ∧
+    Gen.Deep.T_appendToBucketOf.body.readOnly = false := ⟨rfl, rfl, rfl, rfl, rfl⟩
 
 end Props.C16
